@@ -33,10 +33,10 @@ def prescribe(ctx, jobs, fuel=20000, timeout=1500, workers=None):
     """jobs: list of dict(id, prog, dev, mode, what) -> {id: record} from NanoSem"""
     if not jobs:
         return {}, None
-    if len(jobs) > 2500:                 # keep single TLC runs bounded: evaluate in chunks and merge
+    if len(jobs) > 900:                  # keep single TLC runs bounded: evaluate in chunks and merge
         recs, last = {}, None
-        for i in range(0, len(jobs), 2500):
-            r1, last1 = prescribe(ctx, jobs[i:i + 2500], fuel=fuel, timeout=timeout, workers=workers)
+        for i in range(0, len(jobs), 900):
+            r1, last1 = prescribe(ctx, jobs[i:i + 900], fuel=fuel, timeout=timeout, workers=workers)
             recs.update(r1)
             if last is None:
                 last = last1
